@@ -196,10 +196,16 @@ def scanArgVals (src : Bytes) (n : Nat) : Res (Nat × List Cell) := do
 
 /-! ### the checker -/
 
-/-- the first cell the scanner writes for the text at `s` -/
+/-- `rtosc_scan_arg_val(s, &av, 1, NULL, &zero, 0, 0)`: one value scanned into a local variable,
+    without a buffer for strings.  A string, symbol or non-empty blob is stored through the NULL
+    buffer, an array or "nx…" writes behind the variable: undefined behaviour (`Err.undef`). -/
 def scanOne (s : Bytes) : Res Cell := do
   let (_, cells) ← scanArgVal (s.length + 2) s [] 0 false
-  deref cells
+  match cells with
+  | [.str _ _] => .error .undef
+  | [.blob d] => if d.isEmpty then .ok (.blob d) else .error .undef
+  | [c] => .ok c
+  | _ => .error .undef
 
 /-- the tail of `rtosc_skip_next_printed_arg`: the argument is followed by "..." at `src2`
     (fix C11-03: `numeric_range && types_match(...)`) -/
